@@ -566,6 +566,8 @@ def get_attr(E, obj, attr, fr, node):
             if attr in cd.fields:
                 raise PyRaise("AttributeError", line)
             raise Unsupported("attribute %s of %s not declared" % (attr, cd.key))
+        if c[0] == "slice" and attr in ("start", "stop", "step"):
+            return c[1][("start", "stop", "step").index(attr)]
         if c[0] == "slice" and attr != "indices":
             raise PyRaise("AttributeError", line)
         return Bound(obj, attr)
